@@ -82,6 +82,12 @@ def generate(rng, tier):
         cases.append(exec_case(defs + "\n" + names, "en", kind="variables-side-by-side", expect=tot, out=render(tot, "en"), lastline=True))
         cases.append(exec_case(defs + "\ntotal = " + names + "\ntotal 7 seconds", "en", kind="variables-side-by-side", expect=tot + 7,
                                out=render(tot + 7, "en"), lastline=True))
+    for lang, text, secs in (("en", "3 hours 20 minutes - 1 hour 30 minutes", 6600), ("tr", "3 saat 20 dakika - 1 saat 30 dakika", 6600),
+                             ("en", "1 day 2 hours - 30 minutes 10 seconds", 93600 - 1810), ("tr", "1 gün 2 saat - 30 dakika 10 saniye", 93600 - 1810),
+                             ("en", "2 weeks 1 day + 1 day 2 hours 3 minutes", 15 * 86400 + 86400 + 7380),
+                             ("tr", "2 hafta 1 gün + 1 gün 2 saat 3 dakika", 15 * 86400 + 86400 + 7380),
+                             ("tr", "5 saat - 1 saat 30 dakika - 20 dakika", 18000 - 5400 - 1200)):
+        cases.append(exec_case(text, lang, kind="multi-part-operands-" + lang, expect=secs, out=render(secs, lang)))
     for text, secs in (("257 yıl", 257 * LEN["year"]), ("1 yıl", LEN["year"])):
         cases.append(exec_case(text, "tr", kind="pinned-tr", expect=secs, out=render(secs, "tr")))
     while len(cases) < n:
